@@ -16,6 +16,22 @@ pub(super) async fn call_deploy_tool(
     let binding = super::ConfirmTokenBinding::from(&args);
     match super::deploy_plan_envelope_in_process(args).await {
         Ok(mut envelope) => {
+            // A failed plan has nothing to confirm: return the error envelope as is (data stays
+            // empty) instead of issuing a confirm token for it.
+            let plan_ok = envelope
+                .get("ok")
+                .and_then(serde_json::Value::as_bool)
+                .unwrap_or(false);
+            if !plan_ok {
+                let text = match serde_json::to_string_pretty(&envelope) {
+                    Ok(v) => v,
+                    Err(err) => {
+                        return super::tool_result_unexpected(meta, &err);
+                    }
+                };
+                return super::tool_result_from_envelope(text, envelope);
+            }
+
             let plan_hash = match super::confirm::compute_confirm_plan_hash(&binding, &envelope) {
                 Ok(v) => v,
                 Err(err) => {
